@@ -31,6 +31,10 @@ SCENARIOS = [
     ("custom_async,checkpoint", "pause", {}),
     ("custom,checkpoint", "suspend", {}),
     ("custom_async", "abort", {}),
+    # a real handler (_set) calling a device method that raises
+    ("set_fallible,custom,checkpoint", "", {}),
+    ("set_fallible,checkpoint", "pause", {"max_requests": 2}),
+    ("set_fallible,checkpoint", "suspend", {"max_requests": 1}),
 ]
 if THOROUGH:
     SCENARIOS += [
